@@ -54,7 +54,7 @@ def gen_encoding_out():
     t += f"/-- `DEFAULT_OUTPUT_ENCODING` = {DEFAULT_OUTPUT_ENCODING!r} -/\n"
     t += f"def defaultOutputEncoding : List Nat := {lean_str(DEFAULT_OUTPUT_ENCODING)}\n"
     known = R.pattern in KNOWN_PATTERNS
-    ci = R.flags & re.I
+    ci = R.flags & (re.I | re.A)   # the flags that decide which characters a literal / `\s` accepts
     t += f"/-- live `ContentMetaAttributeValue.CHARSET_RE.pattern` = {R.pattern!r}, flags = {R.flags} -/\n"
     t += f"def charsetRePattern : List Nat := {lean_str(R.pattern)}\n"
     t += f"def charsetReKnown : Bool := {'true' if known else 'false'}\n"
@@ -66,6 +66,8 @@ def gen_encoding_out():
     t += f"def charsetReLiteral : List (List Nat) := [{', '.join(lean_nat_list(accepted(re.escape(ch), ci)) for ch in 'charset=')}]\n"
     t += "/-- the code points `\\s` accepts in a str pattern on this CPython = those with `str.isspace()` = those `str.strip()` removes (all three compared at generation time) -/\n"
     t += f"def reWhitespace : List Nat := {lean_nat_list(accepted(chr(92) + 's', 0))}\n"
+    t += "/-- what `\\s` accepts inside the live CHARSET_RE (its own flags: `re.A` would narrow it to ASCII) -/\n"
+    t += f"def charsetReSpace : List Nat := {lean_nat_list(accepted(chr(92) + 's', R.flags & re.A))}\n"
     ws = [c for c in range(0x110000) if chr(c).isspace()]
     if ws != accepted(chr(92) + 's', 0):
         raise RuntimeError("re \\s and str.isspace disagree on this CPython")
